@@ -204,4 +204,21 @@ theorem gates_lockstep (H : Hash L) (r : L) (hr : sbit r = true) (n : Nat) (gs :
     · rw [garbleGates_cons, evalPlainGates_cons]
       exact hinv''
 
+
+theorem get_range_map' {α : Type} [Inhabited α] (n : Nat) (f : Nat → α) (i : Nat) (h : i < n) :
+    Store.get ((Array.range n).map f) i = f i := by
+  simp [Store.get, Array.getD, h]
+
+/-- In a well-formed circuit no gate overwrites an input wire, so after
+garbling the input wires still carry the labels drawn for them. -/
+theorem garble_input_wires (H : Hash L) (c : Circuit) (r : L) (inl : Nat → L)
+    (hwf : c.WF = true) (i : Nat) (hi : i < c.nIn) :
+    (c.garble H r inl).wires.get i = ⟨inl i, inl i ^^^ r⟩ := by
+  simp only [Circuit.WF, Bool.and_eq_true, decide_eq_true_eq, List.all_eq_true] at hwf
+  obtain ⟨⟨⟨hnin, _⟩, _⟩, hnoin⟩ := hwf
+  simp only [Circuit.garble]
+  rw [garbleGates_frame H r c.gates i _ 0 (fun g hg => by have := hnoin g hg; omega)]
+  rw [get_range_map' _ _ _ (by omega)]
+  simp [hi]
+
 end Mpc
